@@ -27,9 +27,18 @@ def make_model(kind, rnd, **kw):
     raise KeyError(kind)
 
 
-def rough_ok(recon):
-    """rough (random / strong jump) data keep the face states admissible only for first order and limited schemes"""
-    return recon == "extrapol1" or recon.startswith("muscl")
+def rough_ok(recon, mesh=None):
+    """rough (random / strong jump) data keep the face states admissible only for first order, and for limited schemes on
+    (nearly) uniform meshes: on a strongly non-uniform mesh a limited face-based slope times the half width of a large cell
+    overshoots its neighbours (the limiter bounds the slope, not the face value), e.g. negative depth -> NaN"""
+    if recon == "extrapol1":
+        return True
+    if not recon.startswith("muscl"):
+        return False
+    if mesh is None:
+        return True
+    v = np.asarray(mesh.vol(), dtype=float)
+    return bool(np.max(v) <= 1.5 * np.min(v))
 
 
 def random_prim(kind, rnd, n, smooth=False, strength=1.0, mild=False, nonrest=False):
@@ -122,7 +131,7 @@ def cons_operator_cases(rnd, tier):
         strength = rnd.choice([1.0, 30.0, 3000.0]) if kind not in ("convection", "burgers") else 1.0
         try:
             disc = fd.modeldisc.fvm(model, m, fd.recon(recon), numflux=flux, bcL={"type": bl}, bcR={"type": br})
-            f = field_from_prim(model, m, random_prim(kind, rnd, n, strength=strength, mild=not rough_ok(recon)))
+            f = field_from_prim(model, m, random_prim(kind, rnd, n, strength=strength, mild=not rough_ok(recon, m)))
             R = [np.array(r, dtype=float) for r in disc.rhs(f)]
             pL, pR, fl = model.calls[-1]
             src = None
@@ -242,7 +251,7 @@ def shift_solve_cases_1d(rnd, tier):
         cfl = 0.3 if not implicit else (rnd.choice([0.5, 5.0]) if kind == "convection" else 0.5)
         try:
             disc = fd.modeldisc.fvm(model, m, fd.recon(recon), numflux=flux)
-            prim = random_prim(kind, rnd, n, mild=(not rough_ok(recon)) or implicit, nonrest=implicit)
+            prim = random_prim(kind, rnd, n, mild=(not rough_ok(recon, m)) or implicit, nonrest=implicit)
             f0 = field_from_prim(model, m, prim)
             f0k = field_from_prim(model, m, [np.roll(p, k) for p in prim])
             a = integrate(cls, m, disc, f0, cfl, 4)
@@ -621,7 +630,8 @@ def problem_1d(rnd, kind, implicit=False, uniform=False):
     recon = rnd.choice(fd.ALL_RECONS if not implicit else fd.LINEAR_RECONS + ["muscl_vanalbada"])
     flux = rnd.choice(FLUXES[kind])
     P = dict(kind=kind, xf=xf, recon=recon, flux=flux, n=n)
-    mild = not rough_ok(recon) or implicit
+    wv = np.diff(xf)
+    mild = not rough_ok(recon) or implicit or (recon.startswith("muscl") and float(np.max(wv)) > 1.5 * float(np.min(wv)))
     if kind == "convection":
         P["mkw"] = dict(a=rnd.choice([1.0, -1.0, 2.5, -0.3]))
         P["prim"] = random_prim(kind, rnd, n, mild=mild)
@@ -946,12 +956,39 @@ def uniform_cases(rnd, tier):
                     us = max(us, solver_tok(max_ulps(f1.data[q], f0.data[q], sc, core.SOLVER_BITS)) * 256)
                 else:
                     us = max(us, max_ulps(f1.data[q], f0.data[q], sc) // max(1, nit))
+            feature = ""
+            if kind in ("euler1d", "nozzle") and len(W) == 3 and W[1] != 0.0:
+                mach_ = abs(W[1]) / math.sqrt(gam * W[2] / W[0])
+                if mach_ < 0.1 and ({bcl["type"], bcr["type"]} & {"insub", "outsub_qtot"}):
+                    feature = "lowmach_reflecting_inlet_outlet"
             recs.append(tok(unif=unif, unifsolve=min(us, core.ULP_CAP), implicit=1 if implicit else 0, model=kind, flux=str(flux),
                             recon=recon, n=n, integrator=cls, bcl=bcl["type"], bcr=bcr["type"], dtlocal=1 if dtlocal else 0,
-                            state=[repr(float(w)) for w in W]))
+                            state=[repr(float(w)) for w in W], feature=feature, nit=nit))
         except Exception as ex:
             recs.append(O.raised_record(ex, model=kind, flux=str(flux), recon=recon, n=n, integrator=cls, bcl=bcl["type"], bcr=bcr["type"]))
     return recs
+
+
+def lowmach_witness():
+    """the recorded finding D19 made visible on every run: a uniform Mach 0.05 flow with matching insub / outsub parameters is
+    an UNSTABLE fixed point of the explicit scheme (the inlet velocity responds to the interior pressure with a gain
+    ~ 1/(gamma M^2)): a 1e-10 pressure perturbation grows by x1.56 per iteration"""
+    gam, n = 1.4, 10
+    model = fd.euler.euler1d(gamma=gam)
+    W = [1.0, 0.05 * math.sqrt(gam), 1.0]
+    m = fd.uniform(n)
+    bl, br = [(x, y) for (x, y) in matching_bcs("euler1d", gam, W, None) if x["type"] == "insub" and y["type"] == "outsub"][0]
+    disc = fd.modeldisc.fvm(model, m, fd.recon("extrapol1"), numflux="hllc", bcL=bl, bcR=br)
+    f0 = field_from_prim(model, m, [np.full(n, w) for w in W])
+    f = f0.copy()
+    f.data[2] = f.data[2] * (1.0 + 1e-10 * np.cos(np.arange(n)))      # round-off sized seed, so that the witness is deterministic
+    with np.errstate(all="ignore"):
+        g = fd.tnum.rk3ssp(m, disc).solve(f, 0.4, stop={"maxit": 40})[-1]
+    us = max(max_ulps(g.data[q], f0.data[q], float(np.max(np.abs(f0.data[2])))) for q in range(3))
+    # judged against the perturbation itself: it must not have grown (2^22 ulps = 1e-9 > 1e-10)
+    return tok(unifsolve=us, implicit=0, model="euler1d", flux="hllc", recon="extrapol1", n=n, integrator="rk3ssp",
+               bcl="insub", bcr="outsub", dtlocal=0, state=[repr(w) for w in W], feature="lowmach_reflecting_inlet_outlet", nit=40,
+               witness=1)
 
 
 def uniform2d_cases(rnd, tier):
@@ -1073,7 +1110,7 @@ def source_cases(rnd, tier):
                 m0 = fd.euler.nozzle(law, gamma=gam)
             dw = fd.modeldisc.fvm(mw, m, fd.recon(recon), numflux=flux, bcL=bcl, bcR=bcr)
             d0 = fd.modeldisc.fvm(m0, m, fd.recon(recon), numflux=flux, bcL=bcl, bcR=bcr)
-            prim = random_prim(kind if kind != "nozzle" else "euler1d", rnd, n, mild=not rough_ok(recon))
+            prim = random_prim(kind if kind != "nozzle" else "euler1d", rnd, n, mild=not rough_ok(recon, m))
             if section is not None and section[1] != 0 and np.min(section[0] + section[1] * np.asarray(m.xf)) <= 0.05:
                 continue        # the section must stay positive on the mesh
             fw = field_from_prim(mw, m, prim)
